@@ -358,6 +358,8 @@ class PatGen:
         self.forms_used = {}
         self.forms = forms
         self.root_is_ref = root_is_ref
+        self.force = None          # form of the next atom pattern
+        self.force_shape = None    # shape of the next range pattern
 
     def use(self, f):
         self.forms_used[f] = self.forms_used.get(f, 0) + 1
@@ -427,6 +429,8 @@ class PatGen:
         if self.forms:
             forms = [f for f in forms if f in self.forms] or ["eq"]
         f = r.choice(forms)
+        if self.force:
+            f, self.force = self.force, None
         self.use(f)
         if f == "wild":
             return "_"
@@ -529,6 +533,8 @@ class PatGen:
         mk = (lambda y: ("chr", chr(max(33, min(126, y))) if chr(max(33, min(126, y))) not in "'\\" else "a")) if k == "char" else (
             lambda y: ("int", max(0, min(255, y)) if t[1] == "u8" else y) if k == "int" else ("dec", y))
         shape = r.choice(["closed", "closed", "half", "from", "to", "toincl"])
+        if self.force_shape:
+            shape, self.force_shape = self.force_shape, None
         if k == "char" and shape in ("from", "to", "half"):
             shape = "closed"
         if k == "f64" and shape in ("toincl",):
